@@ -1,7 +1,7 @@
 """C11: CollapseSequence collapses exactly consecutive equal items, nothing else."""
 import itertools
 from fcat import Rng, rust_eq, gen_value
-from props.regcommon import RB, entries
+from props.regcommon import has_f64, RB, entries
 from vlib import parse_pairs
 
 ID = "C11"
@@ -68,7 +68,7 @@ def seq_script(cat, rng, ops, domain):
                 prev_line = prev_val = None
             elif op == "k" and cat["caps"]["clone"]:
                 b.clone(nxt, cur)
-            elif op == "s" and cat["caps"]["serde"]:
+            elif op == "s" and cat["caps"]["serde"] and not has_f64(b.sh):   # serde_json: no NaN, finite floats within 1 ulp
                 b.raw("serde %s %s" % (nxt, cur), ("eq", "ok"), shape="serde")
                 b.h[nxt] = b.h[cur].__class__(nxt, cat)
                 b.h[nxt].vals = list(b.h[cur].vals)
